@@ -43,6 +43,7 @@ static void gen_signal(link_t *L, rng_t *r, float **buf, long pos, long n, doubl
   (void)pos;
 }
 
+int g_trim_k=0, g_trim_p=0;   /* begin-trimmed link: only every p-th audio packet (and the last) keeps its granule position, lowered by k */
 int g_bs0_patch=0;   /* if 6..13: rewrite the short-blocksize exponent of the id header (synthetic small-block stream), restamp granule positions */
 link_t *link_make(int id,int ch,long rate,int q100,long nsamp,unsigned seed,int managed,long brmax,long brnom,long brmin,int sigkind){
   link_t *L=calloc(1,sizeof(*L));
@@ -89,11 +90,17 @@ link_t *link_make(int id,int ch,long rate,int q100,long nsamp,unsigned seed,int 
     long P=0; int na0=L->npk-3;
     for(int k=0;k<na0;k++){ if(k>0){ long bp=L->pk[3+k-1].W?L->bs1:L->bs0, bk=L->pk[3+k].W?L->bs1:L->bs0; P+=(bp+bk)/4; } L->pk[3+k].gp=P; }
   }
+  if(g_trim_p>0){
+    /* the granule position of a page is that of its last packet: keep only those, lowered by k, so that the first page announces
+       fewer samples than it decodes to (the decoder must drop the surplus from the BEGINNING, Vorbis I A.2) */
+    int na0=L->npk-3;
+    for(int k=0;k<na0;k++){ pkt_t *q=&L->pk[3+k]; int keep=((k+1)%g_trim_p==0)||q->eos; if(!keep||q->gp<0) q->gp=-1; else { q->gp-=g_trim_k; if(q->gp<0) q->gp=0; } }
+  }
   /* packet sample ranges */
   int na=L->npk-3; L->pstart=calloc(na+2,sizeof(long));
   long P=0;
-  for(int k=1;k<na;k++){ L->pstart[k]=P; long bp=L->pk[3+k-1].W?L->bs1:L->bs0, bk=L->pk[3+k].W?L->bs1:L->bs0; P+=(bp+bk)/4; }
-  L->pstart[na]=P;
+  for(int k=1;k<na;k++){ { long tk=g_trim_p>0?g_trim_k:0; L->pstart[k]=P>tk?P-tk:0; } long bp=L->pk[3+k-1].W?L->bs1:L->bs0, bk=L->pk[3+k].W?L->bs1:L->bs0; P+=(bp+bk)/4; }
+  L->pstart[na]=P-(g_trim_p>0?g_trim_k:0);
   if(link_decode_ref(L)){ link_free(L); return NULL; }
   return L;
 }
